@@ -24,7 +24,7 @@ class Cell:
 
     def __init__(self, obs="F2_total", process="NC", fns="ZM-VFNS", nfff=4, pto=1, pto_evol=None, tmc=0,
                  projectile="electron", target="proton", fonllparts=None, nf=None, ren_sv=True, fact_sv=True,
-                 n3lo_var=0, pos_charge=None, kin_y=False, legacy_ptodis=True):
+                 n3lo_var=0, pos_charge=None, kin_y=False, legacy_ptodis=True, kin_x=None):
         self.obs = obs
         self.process = process
         self.fns = fns
@@ -42,6 +42,7 @@ class Cell:
         self.pos_charge = pos_charge
         self.kin_y = kin_y
         self.legacy_ptodis = legacy_ptodis
+        self.kin_x = kin_x  # override of the requested x (a normal form), default the symbol xB
 
     def label(self):
         return (f"{self.obs}|{self.process}|{self.fns}|NfFF={self.nfff}|PTO={self.pto}|PTOevol={self.pto_evol}|TMC={self.tmc}"
@@ -90,6 +91,8 @@ def observables_card(cell, n_points=1):
     kins = []
     for i in range(n_points):
         k = {"x": s("xB" if i == 0 else f"xB{i}", True), "Q2": s("Q2" if i == 0 else f"Q2_{i}", True)}
+        if i == 0 and cell.kin_x is not None:
+            k["x"] = cell.kin_x
         if cell.kin_y:
             k["y"] = s("y" if i == 0 else f"y{i}", True)
         kins.append(k)
